@@ -17,6 +17,8 @@ SPECIALS = {
     # several distinct prefix and suffix tokens (their order matters)
     # special tokens that contain regex metacharacters (the special-token pattern must match them literally)
     'meta': (['<pad>', '<|x|>', 'a.b'], '<pad>', [], ['<|x|>']),
+    # a special token that is a single byte (its special id, not the byte id, must be used when it is parsed)
+    'onebyte': (['<pad>', '|'], '<pad>', [], ['|']),
     'two_prefix': (['<unk>', '<bos>', '<eos>', '<pad>'], '<pad>', ['<bos>', '<pad>'], ['<eos>', '<unk>']),
 }
 
